@@ -620,6 +620,19 @@ def r6_swallow_audit(chk, repo):
                       site_text=f"{f.qualname}: `{head(h, 50)}` reacts on every path",
                       site={"function": f.qualname, "construct": head(h, 80), "what": "swallow"})
     chk.floor("C06.R6", "catch-all handlers", n, 8)
+    # a loop that kills several mailboxes must reach all of them: kill_from_exception re-raises by
+    # default, which would end the loop after the first mailbox
+    nk = 0
+    for f in funcs:
+        for lp in [x for x in walk_body(f.node) if isinstance(x, ast.For)]:
+            if enclosing(lp, (ast.ExceptHandler,)) is None:
+                continue
+            for c in [c for st in lp.body for c in calls_in(st) if isinstance(c.func, ast.Attribute) and c.func.attr == "kill_from_exception"]:
+                nk += 1
+                rr = kw(c, "reraise")
+                chk.check(rr is not None and isinstance(rr, ast.Constant) and rr.value is False, "C06.R6", f, stmt_of(c), "kill_from_exception re-raises (reraise defaults to True) inside the loop over the mailboxes to kill: only the first mailbox is killed, readers of the other outputs wait for the timeout instead of receiving the failure",
+                          site_text=f"{f.qualname}: kill loop uses reraise=False and re-raises after the loop", site={"function": f.qualname, "rule": "kill loop reaches every mailbox"})
+    chk.floor("C06.R6", "kill loops in failure handlers", nk, 1)
 
 
 # ------------------------------------------------------------------------------------ R7
@@ -721,6 +734,8 @@ def r8_idempotent_close(chk, repo):
 
 
 WITNESSES = [
+    W("kill loop aborted by its first re-raise", "C06.R6", MAILBOX,
+      "for m in mbs_to_kill:\n            m.kill_from_exception(e, reraise=False)\n        if not isinstance(e, MailboxKilled):\n            raise", "for m in mbs_to_kill:\n            m.kill_from_exception(e)"),
     W("saver thread closes twice", "C06.R8", "strax/storage/common.py",
       "finally:\n            if not self.closed:\n                try:", "finally:\n            if True:\n                try:"),
     W("narrow _send_from's handler", "C06.R1", MAILBOX,
